@@ -12,9 +12,10 @@ The property at full strength would read
 
     ∀ r, walkRoot false r = owned r        and        ∀ r, symbols r = classify r
 
-Both are FALSE of the code (witnesses below: `scopeWalk_false_lambdaWalrus`, `symbols_false_capture`,
-`symbols_false_firstiter`); what holds is proved under the computable side conditions `goodRoot` / `isCapture`, which the
-driver evaluates on every real tree.
+The first is FALSE of the code (`scopeWalk_false_lambdaWalrus`, finding C16-F3); what holds is proved under the computable
+side condition `goodRoot`, which the driver evaluates on every real tree.  The two former counterexamples for the second
+(capture binders, C16-F1; non-Name first iterable of a nested comprehension, C16-F2) were repaired in the code; the trees
+that witnessed them are kept below as positive examples.
 -/
 namespace Pfst.C16
 open Pfst.Scope
@@ -27,7 +28,7 @@ assigns to the scope of `r`: not the decorators, defaults, annotations, returns,
 those same header parts of them, but nothing else of them; walrus targets from nested comprehensions, at any depth.
 If `r` is itself a comprehension the walk additionally yields its walrus targets (`ownedWalk`; documented quirk of
 `walk`).  Partial: the unconditional statement is false, see `scopeWalk_false_lambdaWalrus`. -/
-theorem scopeWalk_eq_spec_partial (r : Node) (hg : goodRoot false r = true) : walkRoot false r = ownedWalk r := by
+theorem scopeWalk_eq_spec_partial (r : Node) (hg : goodRoot r = true) : walkRoot false r = ownedWalk r := by
   rw [walkRoot_eq false r hg]
   exact List.filter_eq_self.mpr (fun _ _ => rfl)
 
@@ -36,10 +37,10 @@ theorem ownedWalk_eq_owned (r : Node) (hc : isComp r = false) : ownedWalk r = ow
   obtain ⟨i, k, ro, ns, kids⟩ := r
   cases k <;> first | rfl | (simp [isComp, Node.kind, Kind.kc] at hc)
 
-/-- The same through the filter `scope_symbols` walks with (`all=_ASTS_LEAF_SCOPE_SYMBOLS`): under `goodRoot true`, which in
-addition demands that the first iterable of every directly nested comprehension is itself a node the filter lets through
-(in practice: a bare `Name`), the walk yields exactly the filtered scope. -/
-theorem scopeWalk_filtered_partial (r : Node) (hg : goodRoot true r = true) :
+/-- The same through any `all` filter, in particular the one `scope_symbols` walks with
+(`all=_ASTS_LEAF_SCOPE_SYMBOLS`): under the same side condition the walk yields exactly the nodes of the scope that pass
+the filter, whether or not the first iterable of a nested comprehension (or anything above the names in it) passes. -/
+theorem scopeWalk_filtered (r : Node) (hg : goodRoot r = true) :
     walkRoot true r = (ownedWalk r).filter (fun n => n.kind.isSym) := by
   have h := walkRoot_eq true r hg
   simpa using h
@@ -52,17 +53,16 @@ theorem scopes_partition (t : Node) : (scopeOf t).map (·.1) = (preorderL t.kids
   unfold scopeOf
   exact labelsL_fst (rootSS t) t.kids
 
-/-- **scope_symbols = classification**, for scopes that are not comprehensions, whose tree passes `goodRoot true` and that
-own no capture binder (`except … as`, `case … as x` / `case x`, `case [*x]`, `case {**x}`): the seven classes the model of
-`scope_symbols(full=True)` computes are the spec's: load / store / del / global / nonlocal from the binding forms of the
-nodes of the scope, local = store − declared, free = load − store − del − declared.  Partial: false with capture binders
-(`symbols_false_capture`) and with a non-Name first iterable of a nested comprehension (`symbols_false_firstiter`);
-comprehension roots are covered by the correspondence and the sweep only. -/
-theorem symbols_partial (r : Node) (hc : isComp r = false) (hg : goodRoot true r = true)
-    (hcap : ∀ n ∈ owned r, isCapture n = false) : symbols r = classify r := by
-  have hw := scopeWalk_filtered_partial r hg
+/-- **scope_symbols = classification**, for scopes that are not comprehensions and whose tree passes `goodRoot`: the
+seven classes the model of `scope_symbols(full=True)` computes are the spec's: load / store / del / global / nonlocal from
+the binding forms of the nodes of the scope (including `except … as`, capture patterns, imports, parameters, type
+parameters, def/class names, augmented assignment), local = store − declared, free = load − store − del − declared.
+Partial: comprehension roots (where pfst documents walrus targets as store + free) are covered by the correspondence and the
+sweep only; `goodRoot` fails in the situation of `scopeWalk_false_lambdaWalrus`. -/
+theorem symbols_partial (r : Node) (hc : isComp r = false) (hg : goodRoot r = true) : symbols r = classify r := by
+  have hw := scopeWalk_filtered r hg
   rw [ownedWalk_eq_owned r hc] at hw
-  have hf := fold_sym (owned r) {} hcap
+  have hf := fold_sym (owned r) {}
   unfold symbols classify
   rw [hw, hc]
   generalize hA : List.foldl (symStep false) {} (List.filter (fun n => n.kind.isSym) (owned r)) = A at hf
@@ -74,7 +74,9 @@ theorem symbols_partial (r : Node) (hc : isComp r = false) (hg : goodRoot true r
   simp only [finish, keysOf, hl, hs, hd, hgl, hn, h2', List.append_nil]
   rfl
 
-/-! ### the negations (findings) -/
+/-! ### the former counterexamples, now instances of the theorems -/
+
+
 
 private def nm (i : Nat) (k : Kind) (x : Nat) (r : Role := .plain) : Node := .mk i k r [x] []
 private def oth (i : Nat) (kids : List Node) (r : Role := .plain) : Node := .mk i .other r [] kids
@@ -83,11 +85,9 @@ private def oth (i : Nat) (kids : List Node) (r : Role := .plain) : Node := .mk 
 def tCapture : Node :=
   .mk 0 .module .plain [] [oth 1 [oth 2 [], .mk 3 .handler .plain [1] [nm 4 .nameLoad 0, oth 5 []]]]
 
-/-- **F5.** `except E as e`: the language binds `e` in the scope (spec: `e ∈ store`, `e ∈ local`); the model of
-`scope_symbols` never reports it.  Same for MatchAs / MatchStar / MatchMapping captures (`tMatch`). -/
-theorem symbols_false_capture :
-    1 ∈ (classify tCapture).store ∧ 1 ∈ (classify tCapture).loc ∧ 1 ∉ (symbols tCapture).store ∧
-    1 ∉ (symbols tCapture).loc := by decide
+/-- (was C16-F1) `except E as e`: `e` is a store and a local of the scope, not a free name -/
+example : goodRoot tCapture = true ∧ symbols tCapture = classify tCapture ∧ (symbols tCapture).store = [1] ∧
+    (symbols tCapture).loc = [1] ∧ (symbols tCapture).free = [0] := by decide
 
 /-- `match x:` / `case [a, *b]: …` / `case {1: c, **d}: …` / `case C(k=y) as z: …`  (x=0 a=1 b=2 c=3 d=4 C=5 y=6 z=7) -/
 def tMatch : Node :=
@@ -96,8 +96,8 @@ def tMatch : Node :=
     oth 7 [.mk 8 .matchMap .plain [4] [oth 9 [], .mk 10 .matchAs .plain [3] []]],
     oth 11 [.mk 12 .matchAs .plain [7] [oth 13 [nm 14 .nameLoad 5, .mk 15 .matchAs .plain [6] []]]]]]
 
-theorem symbols_false_match :
-    (classify tMatch).store = [1, 2, 4, 3, 7, 6] ∧ (symbols tMatch).store = [] := by decide
+example : goodRoot tMatch = true ∧ symbols tMatch = classify tMatch ∧ (symbols tMatch).store = [1, 2, 4, 3, 7, 6] := by
+  decide
 
 /-- `def f(n): xs = [i for i in range(n)]`  (f=0 n=1 xs=2 i=3 range=4) -/
 def tFirstIter : Node :=
@@ -111,14 +111,10 @@ def tFirstIter : Node :=
 
 def tFirstIter_f : Node := match tFirstIter with | .mk _ _ _ _ (f :: _) => f | n => n
 
-/-- **F4.** `def f(n): xs = [i for i in range(n)]`: `range` and `n` are read in the scope of `f` (first iterable of the
-comprehension); with `all=True` the scope walk of `f` does reach them, but through the filter `scope_symbols` uses the
-call node `range(n)` is not yielded by `walk_Comp`'s inner walk, is never recognised as `first_iter`, and the names below it
-are dropped: the model's `load` for `f` is empty. -/
-theorem symbols_false_firstiter :
-    (classify tFirstIter_f).load = [4, 1] ∧ (symbols tFirstIter_f).load = [] ∧
-    (walkRoot false tFirstIter_f).map Node.id = (owned tFirstIter_f).map Node.id ∧
-    goodRoot false tFirstIter_f = true ∧ goodRoot true tFirstIter_f = false := by decide
+/-- (was C16-F2) `range` and `n` are read in the scope of `f` although the call node `range(n)` does not pass the filter -/
+example : goodRoot tFirstIter_f = true ∧ symbols tFirstIter_f = classify tFirstIter_f ∧
+    (symbols tFirstIter_f).load = [4, 1] ∧ (symbols tFirstIter_f).free = [4] ∧
+    (walkRoot true tFirstIter_f).map Node.id = [3, 5, 11, 12] := by decide
 
 /-- `def f(): return [(lambda: (y := 1)) for _ in z]`  (f=0 y=1 _=2 z=3) -/
 def tLamWalrus : Node :=
@@ -133,12 +129,12 @@ def tLamWalrus : Node :=
 
 def tLamWalrus_f : Node := match tLamWalrus with | .mk _ _ _ _ (f :: _) => f | n => n
 
-/-- **New finding.** A walrus inside a lambda that sits inside a comprehension binds in the *lambda*; `walk_Comp` walks
+/-- **C16-F3.** A walrus inside a lambda that sits inside a comprehension binds in the *lambda*; `walk_Comp` walks
 the comprehension without regard to scopes and hands the target to the enclosing function: the model's walk of `f` contains
 node 8 (`y`), the spec's scope of `f` does not, and `scope_symbols` reports `y` as a local of `f`. -/
 theorem scopeWalk_false_lambdaWalrus :
     8 ∈ (walkRoot false tLamWalrus_f).map Node.id ∧ 8 ∉ (owned tLamWalrus_f).map Node.id ∧
-    1 ∈ (symbols tLamWalrus_f).loc ∧ 1 ∉ (classify tLamWalrus_f).loc ∧ goodRoot false tLamWalrus_f = false := by decide
+    1 ∈ (symbols tLamWalrus_f).loc ∧ 1 ∉ (classify tLamWalrus_f).loc ∧ goodRoot tLamWalrus_f = false := by decide
 
 /-! ### non-vacuity: a tree with every header part, nested scopes, a walrus in nested comprehensions -/
 
@@ -172,9 +168,8 @@ def tBig : Node :=
 
 def tBig_f : Node := match tBig with | .mk _ _ _ _ (f :: _) => f | n => n
 
-example : goodRoot false tBig = true ∧ goodRoot true tBig = true := by decide
-example : goodRoot false tBig_f = true ∧ goodRoot true tBig_f = true ∧ isComp tBig_f = false := by decide
-example : ∀ n ∈ owned tBig_f, isCapture n = false := by decide
+example : goodRoot tBig = true := by decide
+example : goodRoot tBig_f = true ∧ isComp tBig_f = false := by decide
 /-- what the theorems then say for `f`: defaults/annotation/decorator/returns are not in the scope, the class's base and
 keyword value, the lambda's default, the outer comprehension's first iterable and the walrus target two comprehensions
 down are -/
